@@ -352,6 +352,12 @@ func (g *gen) lifecycle(i int, seed uint64) *scenario {
 	sc.Setup = nil
 	sc.Features = nil
 	sc.Rounds = nil
+	if !sc.Ctl.Finalize && r.Chance(1, 2) {
+		// the controller used to have a finalize hook: its finalizer is still on the parent
+		md := sc.Parent["metadata"].(J)
+		md["finalizers"] = A{"metacontroller.io/compositecontroller-" + sc.Ctl.Name}
+		sc.Features = append(sc.Features, "leftover-finalizer")
+	}
 	nr := 2 + r.Intn(3)
 	for j := 0; j < nr; j++ {
 		rs := roundSpec{}
@@ -1080,6 +1086,13 @@ func generateScenarios(prop string, seed uint64, n int, adv bool) []*scenario {
 			out = append(out, g.rollout(i, s, i%3 == 0))
 		case prop == "C08":
 			out = append(out, g.rollout(i, s, true))
+		case prop == "C09" && i%6 == 5:
+			// the parent is deleted in the middle of a rollout while a finalize hook keeps the children
+			sc := g.rolloutFinalize(i, s)
+			for tries := 0; tries < 20 && (sc.Ctl.GenSelector || !sc.Ctl.ParentNamespaced); tries++ {
+				sc = g.rolloutFinalize(i, s)
+			}
+			out = append(out, sc)
 		case prop == "C09":
 			sc := g.rollout(i, s, true)
 			for tries := 0; tries < 20 && (sc.Ctl.GenSelector || !sc.Ctl.ParentNamespaced); tries++ {
@@ -1127,9 +1140,44 @@ func generateScenarios(prop string, seed uint64, n int, adv bool) []*scenario {
 			default:
 				out = append(out, g.rollout(i, s, i%2 == 0))
 			}
+		case prop == "C12" && i%12 == 6:
+			// a rolling-update controller (the ControllerRevision path of the hook calls) whose hook says 429
+			sc := g.rollout(i, s, true)
+			sc.Family = "faults"
+			h2 := sc.Hook
+			h2.Code, h2.RetryAfter = 429, fmt.Sprint(1+r.Intn(50))
+			sc.Hook2 = &h2
+			if len(sc.Rounds) > 2 {
+				sc.Rounds = sc.Rounds[:2]
+			}
+			sc.Features = append(sc.Features, "hook-429", "rolling")
+			out = append(out, sc)
 		case prop == "C12" && i%6 != 0:
 			out = append(out, g.faulty(i, s))
-		case prop == "C13" && i%8 != 0:
+		case prop == "C13" && i%8 == 0:
+			// a rolling-update controller writes its own condition into the status the hook returned:
+			// conditions of every wrong shape
+			sc := g.rollout(i, s, true)
+			sc.Family = "malformed"
+			bad := []interface{}{"Ready", nil, int64(7), true, A{J{"type": "Updated"}}, 2.5}[r.Intn(6)]
+			conds := A{bad}
+			if r.Bool() {
+				conds = A{J{"type": "Ready", "status": "True"}, bad, J{"type": "Updated", "status": "Unknown"}}
+			}
+			switch r.Intn(3) {
+			case 0:
+				sc.Hook.Status = J{"conditions": conds}
+			case 1:
+				sc.Hook.Status = J{"conditions": bad}
+			default:
+				sc.Hook.Status = J{"conditions": J{"type": "Updated"}}
+			}
+			if len(sc.Rounds) > 3 {
+				sc.Rounds = sc.Rounds[:3]
+			}
+			sc.Features = append(sc.Features, "malformed-status-conditions", "rolling")
+			out = append(out, sc)
+		case prop == "C13":
 			out = append(out, g.malformed(i, s))
 		default:
 			out = append(out, g.basic("basic", i, s))
